@@ -1760,8 +1760,17 @@ struct ClosureApplyFn {
 
 fn compile_go(goenv: &GlobalGoEnv, closure: &anf::ImmExpr) -> goast::Stmt {
     let closure_ty = imm_ty(closure);
-    let apply = find_closure_apply_fn(goenv, &closure_ty)
-        .expect("go statement closure must have an apply method");
+    let Some(apply) = find_closure_apply_fn(goenv, &closure_ty) else {
+        // `go f` where f is a plain function value (e.g. a top-level fn): call it directly
+        let call = anf::CExpr::ECall {
+            func: closure.clone(),
+            args: vec![],
+            ty: tast::Ty::TUnit,
+        };
+        return goast::Stmt::Go {
+            call: compile_cexpr(goenv, &call),
+        };
+    };
 
     let apply_call = anf::CExpr::ECall {
         func: anf::ImmExpr::ImmVar {
